@@ -31,7 +31,7 @@ class Gen:
             max_t=4, max_m=4, p_nonexcl=0.25, p_nested=0.15, p_struct=0.45, p_alias=0.2,
             p_rel=0.5, p_two_mods=0.2, p_fsm=0.12, p_wit=0.5, p_validate=0.2, p_enable=0.3,
             p_defect=0.0, sched="eager", p_body_in_struct=0.15, rdep_rel=True, nested=True,
-            p_rdyrun=0.0, p_badrun=0.0, p_chain=0.0, p_relalias=0.0, p_xmod=0.0, p_constenable=0.0, p_always=0.0, wit_rounds=1,
+            p_rdyrun=0.0, p_badrun=0.0, p_chain=0.0, p_relalias=0.0, p_xmod=0.0, p_constenable=0.0, p_always=0.0, wit_rounds=1, p_fwdarg=0.0,
         )
         self.opt.update(opt)
         self.nin = 0
@@ -243,7 +243,10 @@ class Gen:
             else:
                 s["en"] = 0
                 s["enc"] = r.choice(["T", "C1"])
-        if C["hasarg"]:
+        if C["hasarg"] and o["p_fwdarg"] > 0 and self.bodies[caller - 1]["kind"] == "M" and self.bodies[caller - 1]["hasarg"] \
+                and r.random() < o["p_fwdarg"]:
+            s["argk"], s["argv"] = "f", r.randint(0, 3)
+        elif C["hasarg"]:
             if r.random() < 0.7:
                 s["argk"], s["argv"] = "i", self.arg()
             else:
@@ -533,8 +536,10 @@ def build(design, scheduler=None, netlist_only=False):
                             kw["validate_arguments"] = validator
                         if B["single"]:
                             kw["single_caller"] = True
-                        with meth.body(m, ready=rdy(B), out=out, **kw):
+                        with meth.body(m, ready=rdy(B), out=out, **kw) as marg:
+                            self.argstack = getattr(self, "argstack", []) + [marg]
                             self.emit(m, B["ch"])
+                            self.argstack = self.argstack[:-1]
                 elif t == "call":
                     S = sites[n["s"] - 1]
                     callee = H.obj[S["callee"]]
@@ -547,6 +552,9 @@ def build(design, scheduler=None, netlist_only=False):
                         kw["a"] = H.arg[S["argv"]]
                     elif S["argk"] == "c":
                         kw["a"] = S["argv"]
+                    elif S["argk"] == "f":
+                        # the calling method forwards (a function of) its own argument
+                        kw["a"] = self.argstack[-1].a ^ S["argv"]
                     if S.get("enc"):
                         cen = {"F": False, "0": 0, "C0": Const(0), "T": True, "C1": Const(1)}[S["enc"]]
                         res = callee(m, enable_call=cen, **kw)
